@@ -3,6 +3,7 @@
 // the return code must be 0 iff the twin did not throw and every returned number/string/array must be bit-equal; no exception may
 // escape; at the end all handles are freed and LeakSanitizer must be silent.
 #include "vf_spec.h"
+#include <functional>
 #include <photospline/cinter/splinetable.h>
 
 using namespace vf;
@@ -14,7 +15,8 @@ struct H { splinetable c; Table *twin; bool live; };
 
 static Spec small_spec(Rng &r, int nd_fixed = 0) {
 	Spec s; int nd = nd_fixed ? nd_fixed : r.range(1, 3); size_t tot = 1;
-	for (int d = 0; d < nd; d++) { unsigned o = (unsigned)r.below(4); int nk = 2 * o + 2 + (int)r.below(4); s.order.push_back(o); s.knots.push_back(gen_knots(r, o, nk, 1, 1.0, r.U() * 2, true)); tot *= (size_t)(nk - o - 1); }
+	int constorder = r.coin(0.4) ? r.range(2, 3) : -1; // all-2 / all-3 tables are served by a constant-order routine: a convolution or permutation of such a handle changes which routine applies
+	for (int d = 0; d < nd; d++) { unsigned o = constorder >= 0 ? (unsigned)constorder : (unsigned)r.below(4); int nk = 2 * o + 2 + (int)r.below(4); s.order.push_back(o); s.knots.push_back(gen_knots(r, o, nk, 1, 1.0, r.U() * 2, true)); tot *= (size_t)(nk - o - 1); }
 	s.coef.resize(tot); for (auto &c : s.coef) c = (float)(r.U() - 0.5);
 	if (r.coin(0.5)) s.aux.push_back({"NUM", std::to_string(r.below(1000))}); if (r.coin(0.3)) s.aux.push_back({"TXT", "hello"});
 	return s;
@@ -41,6 +43,14 @@ static void run_C18(const Args &a, long cs) {
 		H &h = hs[r.below(nh)];
 		int kind = (int)r.below(22);
 		hh = hash_mix(hh, (uint64_t)kind * 7 + (&h - &hs[0]));
+		// one evaluation through the C entry points right before and right after every call on this handle (value compared with the twin, bit for bit): whatever the
+		// wrappers keep between calls has then seen the table as it was before the call
+		Rng rm(a.seed * 31 + 7, "C18mini", (uint64_t)cs * 64 + (uint64_t)op);
+		auto mini_eval = [&](const char *when) { if (!h.live || !h.twin || !h.c.data) return; Table &MT = *h.twin; unsigned n0 = MT.get_ndim(); if (!n0 || splinetable_ndim(&h.c) != n0) return; std::vector<double> mx(n0); std::vector<int> mc(n0);
+			for (unsigned d = 0; d < n0; d++) { const double *k = MT.get_knots(d); mx[d] = k[0] + (k[MT.get_nknots(d) - 1] - k[0]) * rm.U(); } if (!MT.searchcenters(mx.data(), mc.data())) return; bool fin = true; for (uint64_t i = 0; i < MT.get_ncoeffs() && fin; i++) if (!std::isfinite(MT.get_coefficients()[i])) fin = false; if (!fin) return;
+			count("calls:evaluation-around-other-calls"); if (!biteq(MT.ndsplineeval(mx.data(), mc.data(), 0), ::ndsplineeval(&h.c, mx.data(), mc.data(), 0))) fail(std::string("ndsplineeval:differs-from-C++:") + when + "-another-call-on-the-handle", ""); };
+		struct Post { std::function<void()> f; ~Post() { f(); } } post_{[&]() { if (out().nviol < 3) mini_eval("right-after"); }};
+		mini_eval("right-before");
 		bool threw = false; int rc = -99;
 		auto expect = [&](const char *name) { count(std::string("calls:") + name); if ((rc == 0) != !threw) fail(std::string(name) + ":return-code-differs-from-C++-outcome", std::string("rc=") + std::to_string(rc) + " twin_threw=" + (threw ? "1" : "0")); };
 		try {
